@@ -151,7 +151,7 @@ RE_STATES = re.compile(r"(\d+) states generated, (\d+) distinct states found")
 RE_REJ = re.compile(r"TRACE-REJECTED at line\", (\d+), \"of\", (\d+)")
 
 
-def tlc_trace(module, trace_path, tag, timeout=3000, cfgfile=None):
+def tlc_trace(module, trace_path, tag, timeout=3000, cfgfile=None, strict=False):
     """Validate one recorded trace against a trace specification.
     Returns dict(accepted, line, total, states, out)."""
     meta = os.path.join(WORK, "tlc", tag)
@@ -160,6 +160,7 @@ def tlc_trace(module, trace_path, tag, timeout=3000, cfgfile=None):
     env = dict(os.environ)
     env.update(TLC_ENV_TRACE)
     env["TRACE"] = trace_path
+    env["STRICT"] = "1" if strict else "0"
     cmd = [TLC, "-workers", "1", "-metadir", meta, "-cleanup", "-noGenerateSpecTE",
            "-config", cfgfile or (module + ".cfg"), module + ".tla"]
     t0 = time.time()
